@@ -150,7 +150,7 @@ CHECKS['C06'] = dict(title='Multi-value destinations end up as the fold of all v
     level_text='13 container kinds + int[3], array, tuple, bitset, vector<bool>, DynamicBitset, 4 key-value containers; every supported combination of separator/clear/sort/unique/multi-value/check/initial content; every sequence of <= 3 (quick) / <= 4 (thorough) elements incl. duplicates and an out-of-range element; every way of cutting the sequence into uses and free values',
     level_note='trusts the reference fold (placement rules taken from the adapters\' documented behaviour); lists with empty elements are outside (no documented meaning)',
     rule='kind x options (odometer) x element sequence x cut (2^(n-1) compositions) x free-value form; states = option configurations accepted by the destination, transitions = evalArguments calls; all cuts of one sequence are compared with the same fold',
-    bound={'quick': 'sequences <= 3 over {0,1,2,7} / {a,b,B}; separators , ; string kinds with a general or a position-1 formatter', 'thorough': 'sequences <= 4; separators , ; .'},
+    bound={'quick': 'sequences <= 3 over {0,1,2,7,14} / {a,b,B}; separators , ; string kinds with a general or a position-1 formatter', 'thorough': 'sequences <= 4; separators , ; .'},
     assumptions=['option combinations a destination refuses at definition time are skipped and counted', 'unordered containers are compared as multisets'])
 
 CHECKS['C07'] = dict(title='Arguments from a string, a file or the environment equal the same words on argv', engine='xenum',
@@ -159,7 +159,7 @@ CHECKS['C07'] = dict(title='Arguments from a string, a file or the environment e
     level_text='quoting: every list of <= 3 words over {a, blank, single quote, double quote, backslash} in 4 escape styles per word; sources: every line of <= 2 (quick) / <= 3 (thorough) uses, every assignment of each use to one of the 4 sources, 2 file layouts x 4 comment/empty-line decorations, compared with the abstract evaluator (verdict and values)',
     level_note=_ARGS_NOTE + '; file lines are newline-terminated (a last line without newline is outside); real files in a private per-worker HOME',
     rule='part 1: word list x style vector (odometer); part 2: configuration x use sequence x source vector in {A,P,F,E}^n x layout x decoration; states = cases, transitions = make_arg_array/evalArguments calls',
-    bound={'quick': 'words <= 3 chars, lists <= 3 (3rd level single chars); lines <= 2 uses', 'thorough': 'lists of 3 with words <= 2 chars; lines <= 3 uses'},
+    bound={'quick': 'words <= 3 chars, lists <= 3 (3rd level single chars); lines <= 2 uses (string values with blank, quotes, trailing blank, blank+#)', 'thorough': 'lists of 3 with words <= 2 chars; lines <= 3 uses'},
     assumptions=['the environment variable is $PROG (upper-cased program name), HOME is a scratch directory owned by the worker'])
 
 CHECKS['C08'] = dict(title='Evaluating through an argument group equals one handler owning all arguments', engine='xenum',
@@ -177,7 +177,7 @@ CHECKS['C04'] = dict(title='Argument evaluation is memory-safe for every argumen
     level_text='every argv of <= 2 words of <= 3 raw characters (quick: second word <= 2), every line of <= 3 (quick) / <= 4 (thorough) tokens, program names of every length up to 3 and at allocator boundaries, each through 8 source/flag modes (plain, program-argument file absent/present, environment unset/empty/set, argument file, Groups) on a handler with every destination kind',
     level_note='oracle is the sanitizer (heap/stack/global overflow, use after free, mismatched delete, null dereference, libstdc++ assertions) + outcome type; a crash ends the case it occurs in (the remaining lines of that case are not run, the case is reported)',
     rule='case = (alphabet family, first word[s]); within a case all continuations x 8 modes; states = argument vectors x modes, transitions = evalArguments calls; non-trivial = cases',
-    bound={'quick': 'raw: 1156 first words (<= 3 chars over 10 characters; <= 2 chars also over blank and 0xff) x 156 second words; tokens: lines <= 3 of 60 tokens; 70 program names incl. the empty one; lists of 0..24 values into vector / int[16] / array<int,16> / 12-tuple with a formatter for position 0..2', 'thorough': 'raw: 1156 x 1156, 3 words of <= 2 chars; tokens: lines <= 4 (4th token in plain mode)'},
+    bound={'quick': 'raw: 1156 first words (<= 3 chars over 10 characters; <= 2 chars also over blank and 0xff) x 156 second words; tokens: lines <= 3 of 61 tokens; 70 program names incl. the empty one; lists of 0..24 values into vector / int[16] / array<int,16> / 12-tuple with a formatter for position 0..2', 'thorough': 'raw: 1156 x 1156, 3 words of <= 2 chars; tokens: lines <= 4 (4th token in plain mode)'},
     assumptions=['argc >= 1 and argv[argc] == nullptr (what the C runtime guarantees)', 'exit() is interposed: the help arguments are used with "continue after usage"'])
 
 CHECKS['C18'] = dict(title='The usage lists exactly the visible arguments, each once', engine='xenum',
